@@ -33,7 +33,9 @@ def generate(repo=None):
     refused = []
     defs = {}
     facts = dict(gt_half_recurses_on_complement_and_inverts=False, half_copies_rng=False, below_002_is_rare_only=False,
-                 coin_flips_8=False, floor_is_floorf=False, top_bits_is_floor=False, correction_is_rare_or=False)
+                 coin_flips_8=False, floor_is_floorf=False, top_bits_is_floor=False, correction_is_rare_or=False,
+                 rare_next_is_candidate_plus_gap=False, rare_p0_none_p1_all=False, rare_dist_is_geometric_p=False,
+                 for_samples_visits_hits_below_n=False)
     try:
         got = list(cxx.function_bodies(src, r'void stim::biased_randomize_bits\(float probability, uint64_t \*start, uint64_t \*end, std::mt19937_64 &rng\)\s*\{'))
         if len(got) != 1:
@@ -57,6 +59,20 @@ def generate(repo=None):
             raise cxx.Refuse('correcting pass not found')
         facts['correction_is_rare_or'] = True
         defs['correction'] = to_q(ast.parse(m.group(1).strip(), mode='eval'))
+        # the rare-error iterator: hit = candidate + (number of failures before the next success); next candidate = hit + 1
+        got = list(cxx.function_bodies(src, r'size_t RareErrorIterator::next\(std::mt19937_64 &rng\)\s*\{'))
+        if len(got) == 1:
+            nb = ' '.join(got[0][1].split())
+            facts['rare_p0_none_p1_all'] = nb.startswith('if (probability == 0) { return SIZE_MAX; } else if (probability == 1) { return next_candidate++; }')
+            facts['rare_next_is_candidate_plus_gap'] = 'else { size_t result = next_candidate + dist(rng); next_candidate = result + 1; return result; }' in nb
+        got = list(cxx.function_bodies(src, r'RareErrorIterator::RareErrorIterator\(float probability\)\s*:\s*next_candidate\(0\), probability\(probability\)\s*\{'))
+        if len(got) == 1:
+            cb = ' '.join(got[0][1].split())
+            facts['rare_dist_is_geometric_p'] = 'if (0 < probability && probability < 1) { dist = std::geometric_distribution<size_t>(probability); }' in cb
+        hdr = cxx.strip_comments(open(os.path.join(repo, 'src/stim/util_bot/probability_util.h')).read())
+        hb = ' '.join(hdr.split())
+        facts['for_samples_visits_hits_below_n'] = ('inline static void for_samples(double p, size_t n, std::mt19937_64 &rng, BODY body) { if (p == 0) { return; } '
+                                                    'RareErrorIterator skipper((float)p); while (true) { size_t s = skipper.next(rng); if (s >= n) { break; } body(s); } }') in hb
     except (cxx.Refuse, SyntaxError) as e:
         refused.append(('biased_randomize_bits', str(e)))
     d = lambda k: defs.get(k, '0')
